@@ -416,6 +416,101 @@ RUNNERS = {"ctx": CtxRunner, "thread": ThreadRunner, "async": AsyncRunner}
 # running a case on the real code
 
 
+class shallow_stack:
+    """Evaluate the real code with a low recursion limit: a proxy that resolves to another proxy (or
+    any other unbounded recursion through werkzeug) must surface as RecursionError - an observation the
+    oracle reports - instead of overflowing the C stack and killing the check (SIGSEGV)."""
+
+    HEADROOM = 260
+
+    def __enter__(self):
+        import sys
+
+        depth, f = 0, sys._getframe()
+        while f is not None:
+            depth, f = depth + 1, f.f_back
+        self.old = sys.getrecursionlimit()
+        sys.setrecursionlimit(min(self.old, depth + self.HEADROOM))
+        return self
+
+    def __exit__(self, *a):
+        import sys
+
+        sys.setrecursionlimit(self.old)
+        return False
+
+
+def in_child(fn, arg, timeout=60):
+    """fn(arg) evaluated in a forked child: ("ok", result text) / ("exc", class name) /
+    ("crash", signal number) when the interpreter itself died (C stack overflow, ...)"""
+    import os
+    import select
+    import signal
+
+    r, w = os.pipe()
+    pid = os.fork()
+    if pid == 0:
+        try:
+            os.close(r)
+            try:
+                out = "ok\n" + fn(arg)
+            except BaseException as e:  # noqa: BLE001
+                out = "exc\n" + type(e).__name__
+            with os.fdopen(w, "w", encoding="utf-8", errors="surrogatepass") as fh:
+                fh.write(out)
+        finally:
+            os._exit(0)
+    os.close(w)
+    chunks = []
+    with os.fdopen(r, "rb") as fh:
+        while True:
+            ready, _, _ = select.select([fh], [], [], timeout)
+            if not ready:
+                os.kill(pid, signal.SIGKILL)
+                break
+            b = os.read(fh.fileno(), 1 << 16)
+            if not b:
+                break
+            chunks.append(b)
+    _, status = os.waitpid(pid, 0)
+    if os.WIFSIGNALED(status):
+        return "crash", str(os.WTERMSIG(status))
+    kind, _, body = b"".join(chunks).decode("utf-8", "surrogatepass").partition("\n")
+    return (kind or "crash"), body
+
+
+class CrashGuard:
+    """The real code runs in-process (fast) unless a canary - the stream's hard-wired corpus evaluated
+    in a forked child before the first case - shows that this tree can kill the interpreter; then every
+    case is evaluated in its own forked child and a crash becomes the observation
+    `EXC:InterpreterCrash(signal N)` (reported by the oracle with the case as replay) instead of taking
+    the check down."""
+
+    def __init__(self):
+        self.isolate = None
+
+    def run(self, fn, case, canary_cases):
+        if self.isolate is None:
+            def canary(cases):
+                for c in cases:
+                    try:
+                        fn(c)
+                    except Exception:  # noqa: BLE001
+                        pass
+                return "done"
+
+            kind, _ = in_child(canary, canary_cases, timeout=120)
+            self.isolate = kind != "ok"
+        if not self.isolate:
+            return fn(case)
+        kind, body = in_child(fn, case)
+        if kind == "ok":
+            return body
+        if kind == "exc":
+            return "EXC:" + body
+        return f"EXC:InterpreterCrash(signal {body})"
+
+
 SLOT_IS_STACK = {0: False, 1: True, 2: False}
 REUSE = {}  # id(case) -> (instances created by `new`, of which at the address of a discarded one)
 
@@ -707,6 +802,10 @@ def run_real(case):
                     # name asks for): not a case of the property; recorded for the correspondence
                     return "AttributeError"
                 else:
+                    if type(o) is LocalProxy:
+                        # resolving yields another proxy: forwarding bool()/repr() to it would recurse
+                        # in C without bound (CPython does not guard slot_nb_bool -> partial -> bool)
+                        return "PROXY-RESOLVES-TO-PROXY"
                     # the object must be the very payload bound here, and reads through the proxy
                     # must see its content
                     s = bx(o)
@@ -728,6 +827,8 @@ def run_real(case):
                     return "RuntimeError"
                 except AttributeError:
                     return "AttributeError"
+                if type(o) is LocalProxy:
+                    return "PROXY-RESOLVES-TO-PROXY"
                 # mutate *through the proxy*
                 if isinstance(o, dict):
                     p["k"] = fv
@@ -751,6 +852,8 @@ def run_real(case):
                     o = None
                 except AttributeError:
                     o = AttributeError
+                if type(o) is LocalProxy:
+                    return "PROXY-RESOLVES-TO-PROXY"
                 if o is not None and o is not AttributeError and (name in UNBOUND_ONLY or not isinstance(o, Box)):
                     return "skip"
                 PROBE_LOG = []
@@ -1391,6 +1494,10 @@ class Contexts(Stream):
             [["push", 0, 1, 16], ["spawn", 0], ["drop", 0, 1], ["gc", 0], ["new", 1, 1], ["top", 0, 1], ["top", 1, 1], ["pnew", 0, "top", 1], ["pget", 0, 0], ["pget", 1, 0]],
             [["set", 0, 0, 1, 8], ["pnew", 0, "attr", 0, 1], ["spawn", 0], ["rel", 0, 0], ["drop", 0, 0], ["new", 1, 0], ["pget", 1, 0], ["pget", 0, 0], ["get", 1, 0, 1], ["pdrop", 0, 0], ["new", 0, 0], ["get", 1, 0, 1]],
             [["set", 0, 0, 1, 8], ["set", 0, 2, 1, 16], ["push", 0, 1, 24], ["spawn", 0], ["cleanup", 1, 3], ["get", 1, 2, 1], ["cleanup", 1, 2], ["top", 1, 1], ["get", 0, 0, 1], ["cleanup", 0, 1], ["drop", 0, 2], ["cleanup", 0, 0]],
+            # a managed local is replaced in its slot: the manager (and the proxy) keep the old instance
+            # (model inaccuracy met in the thorough tier: the driver had declared the old instance dead)
+            [["set", 0, 2, 1, 2], ["mnew", 0, "list", 2], ["pnew", 0, "attr", 2, 1], ["new", 0, 2], ["pget", 0, 0], ["mclean", 0, 0, 0], ["pget", 0, 0], ["get", 0, 2, 1]],
+            [["push", 0, 1, 8], ["mnew", 0, "tuple", 1, 0], ["pnew", 0, "top", 1], ["spawn", 0], ["drop", 1, 1], ["gc", 1], ["mclean", 1, 0, 1], ["pget", 1, 0], ["pget", 0, 0], ["new", 1, 1], ["top", 1, 1]],
             # proxies of every constructor form, in a parent, its child and an unrelated context
             [["push", 0, 1, 8], ["cvset", 0, 0, 16], ["pnew", 0, "topattr", 1], ["pnew", 0, "cvar", 0], ["pnew", 0, "cvarattr", 0], ["pnew", 0, "const", 24], ["pnew", 0, "constattr", 1], ["pnew", 0, "via", 1], ["pnew", 0, "viaattr", 0], ["spawn", 0], ["fresh"], ["cvset", 1, 0, 2], ["push", 1, 1, 5]]
             + [["pget", c, i] for i in range(7) for c in range(3)]
@@ -1399,22 +1506,10 @@ class Contexts(Stream):
     ]
 
     def exhaustive(self, tier):
-        return True  # all depth-2 (quick) / depth-3 + depth-4 (thorough) interleavings after a spawn, before the random part
+        return False  # random histories; the enumerated families are the stream `contexts-enum`
 
     def cases(self, rng, tier):
         if tier == "quick":
-            yield from manager_cases("ctx")
-            mc = list(manager_cases("thread")) + list(manager_cases("async"))
-            rng.shuffle(mc)
-            yield from mc[:40]
-            yield from forwarding_cases("ctx")
-            yield from forwarding_cases("thread", rng, 12)
-            yield from forwarding_cases("async", rng, 12)
-            yield from lifecycle_cases("ctx")
-            some = list(lifecycle_cases("thread")) + list(lifecycle_cases("async"))
-            rng.shuffle(some)
-            yield from some[:60]
-            yield from exhaustive_cases(2, "ctx")
             for _ in range(2400):
                 yield random_case(rng, "ctx")
             for _ in range(900):
@@ -1428,34 +1523,25 @@ class Contexts(Stream):
             for _ in range(150):
                 yield random_case(rng, "async", 12, life=0.25)
         else:
-            yield from manager_cases("ctx")
-            yield from manager_cases("thread")
-            yield from manager_cases("async")
-            yield from forwarding_cases("ctx")
-            yield from forwarding_cases("thread")
-            yield from forwarding_cases("async")
-            yield from lifecycle_cases("ctx")
-            yield from lifecycle_cases("thread")
-            yield from lifecycle_cases("async")
-            yield from exhaustive_cases(3, "ctx")
-            yield from exhaustive_cases(2, "thread")
-            yield from exhaustive_cases(2, "async")
-            for _ in range(9000):
+            # one round of the thorough tier (the runner repeats rounds with derived seeds)
+            for _ in range(5000):
                 yield random_case(rng, "ctx", 24)
-            for _ in range(6000):
+            for _ in range(4000):
                 yield random_case(rng, "ctx", 28, life=0.25)
-            for _ in range(2400):
+            for _ in range(1000):
                 yield random_case(rng, "thread", 16)
-            for _ in range(1200):
+            for _ in range(600):
                 yield random_case(rng, "thread", 18, life=0.25)
-            for _ in range(2400):
+            for _ in range(1000):
                 yield random_case(rng, "async", 16)
-            for _ in range(1200):
+            for _ in range(600):
                 yield random_case(rng, "async", 18, life=0.25)
-            yield from exhaustive_cases(4, "ctx", reduced=True)
+
+    guard = CrashGuard()
 
     def real(self, case):
-        return run_real(case)
+        with shallow_stack():
+            return self.guard.run(run_real, case, Contexts.corpus)
 
     def model_line(self, case):
         return line("trace", *[enc_op(o) for o in case["ops"]])
@@ -1491,6 +1577,48 @@ class Contexts(Stream):
         for m in RUNNERS:
             if m != case["mode"]:
                 yield {"mode": m, "ops": ops}
+
+
+class ContextsEnum(Contexts):
+    """the enumerated families of the `contexts` op language: every LocalManager form x release route,
+    every proxy kind x forwarded special method, the object-lifecycle family, and every sequence of
+    2 (quick) / 3 and, over a reduced alphabet, 4 (thorough) operations of parent and child after a
+    spawn. Same real code, reference oracle and model as `contexts`."""
+
+    name = "contexts-enum"
+    corpus = []
+
+    def exhaustive(self, tier):
+        return True
+
+    def cases(self, rng, tier):
+        if tier == "quick":
+            yield from manager_cases("ctx")
+            mc = list(manager_cases("thread")) + list(manager_cases("async"))
+            rng.shuffle(mc)
+            yield from mc[:40]
+            yield from forwarding_cases("ctx")
+            yield from forwarding_cases("thread", rng, 12)
+            yield from forwarding_cases("async", rng, 12)
+            yield from lifecycle_cases("ctx")
+            some = list(lifecycle_cases("thread")) + list(lifecycle_cases("async"))
+            rng.shuffle(some)
+            yield from some[:60]
+            yield from exhaustive_cases(2, "ctx")
+        else:
+            yield from manager_cases("ctx")
+            yield from manager_cases("thread")
+            yield from manager_cases("async")
+            yield from forwarding_cases("ctx")
+            yield from forwarding_cases("thread")
+            yield from forwarding_cases("async")
+            yield from lifecycle_cases("ctx")
+            yield from lifecycle_cases("thread")
+            yield from lifecycle_cases("async")
+            yield from exhaustive_cases(3, "ctx")
+            yield from exhaustive_cases(2, "thread")
+            yield from exhaustive_cases(2, "async")
+            yield from exhaustive_cases(4, "ctx", reduced=True)  # cut by the thorough budget
 
 
 # ---------------------------------------------------------------------------
@@ -1696,11 +1824,12 @@ class Preempt(Stream):
     ]
 
     def cases(self, rng, tier):
-        for _ in range(400 if tier == "quick" else 6000):
+        for _ in range(400 if tier == "quick" else 3000):
             yield preempt_case(rng)
 
     def real(self, case):
-        return run_preempt(case)
+        with shallow_stack():
+            return run_preempt(case)
 
     def model_line(self, case):
         return line("trace", *[enc_op(o) for o in preempt_sequential(case)["ops"]])
@@ -1776,7 +1905,7 @@ CHECK = Check(
     prop="C18",
     gen=["LocalOps", "LocalProxyTbl"],
     modules=["WzVerif.Props.C18"],
-    streams=[Contexts(), Preempt()],
+    streams=[Contexts(), ContextsEnum(), Preempt()],
     assumptions=[
         "partial: the guarantees of contextvars itself (Context.run isolation, copy_context / create_task snapshot semantics, a new thread starting with an empty context) are assumed, not verified - the model's copyCtx/freshCtx encode them; they are exercised by the stream in all three realisations",
         "partial: the preemptive semantics (Model/LocalFine.lean) interleaves the primitive effects of concurrent calls; one primitive effect (dict.copy, list.append, ContextVar.set, ...) is atomic (GIL), a context is only ever entered by one thread at a time, and only a context's own idle thread copies it (contextvars) - assumed. Real preemption is exhibited at source-line granularity by the `preempt` stream (sys.settrace + semaphores); the `contexts` stream steps whole calls",
@@ -1785,11 +1914,12 @@ CHECK = Check(
         "payloads are of eight kinds (Box, {}, [], an object with __bool__ False, an object with __len__()==0, falsy scalars, empty immutables, equal-but-distinct truthy scalars) so that bound-but-falsy objects and equal-but-distinct rebinding are exercised; the model's values stay opaque tokens, truthiness is a parameter `falsy` of proxyViewSrc",
         "LocalProxy: all constructor forms (Local+name, LocalStack[+name], ContextVar[+name], callable[+name]) are modelled (resolveP); _ProxyLookup.__get__ / _ProxyIOp are modelled by lookupGet over the forwarding table read from the live class (93 entries), their source text is pinned; ~75 of the forwarded special methods are exercised through real operators on bound proxies. On an UNBOUND proxy the stream accesses the forwarded name as an attribute: through an operator CPython's slot lookup swallows the RuntimeError for some names (`p < 1` is a TypeError, `p == 1` is False, `hash(p)` is 'unhashable', `iter(p)` 'not iterable') - below the Python level, outside the model; the three faces the property names (RuntimeError from _get_current_object, bool, repr) are checked through the real operators",
         "object lifecycle: which ContextVar a Local()/LocalStack() gets is read from the AST of __init__ (CtorKind); the model gives `direct` the meaning 'a var nobody else has' (contextvars.ContextVar(...) returns a new var - assumed) and `indirect` the worst case (memoised by name/address); CPython's address re-use is modelled by arbitrary addresses in `create` events; the harness hunts for re-used addresses (evidence buckets `new@reused-address`)",
-        "attributes of payload objects (`attrgetter(name)` in named proxies) are a parameter attrOf of the model; the harness uses one attribute `peer` on boxes",
+        "attributes of payload objects: `attrgetter(name)` in named proxies is a parameter attrOf of the model (theorems hold for every attribute function; the harness uses one attribute `peer` on boxes); one MUTABLE attribute per payload object is modelled (Fields / mutateVia / readVia): writing through a proxy hits exactly the object bound in the accessing context; payload objects are shared by reference between a context and its copies (payload_objects_shared_by_reference) - the isolation the property states concerns bindings",
+        "harness robustness: the real code runs under a low recursion limit (RecursionError is an observation); a proxy resolving to another proxy is reported as PROXY-RESOLVES-TO-PROXY before any forwarded operation is applied (CPython recurses in C without bound on bool(proxy-to-proxy) and dies with SIGSEGV); a canary (the corpus in a forked child) switches the stream to one forked child per case when this tree can kill the interpreter (EXC:InterpreterCrash)",
     ],
     trusted_extra=["CPython contextvars / threading / asyncio (exercised by the stream, not verified)", "tools/gen/c18.py AST translator (statement subset of local.py -> effect lists)"],
     quick_budget=6500,
-    thorough_budget=90000,
+    thorough_budget=40000,
 )
 
 MANIFEST = {
